@@ -303,7 +303,13 @@ def c19_extract_case(ctx, drv, rng, i, fps):
     st = snapshot(project, ix)
     drv.ask(["M"] + codec.enc_model(model))
     st_toks = codec.enc_state(model, st)
-    times = sorted(set(rng.randrange(0, 8) for _ in range(rng.randint(0, 3)))) if rng.random() < 0.8 else [rng.randrange(0, 8)] * 2
+    r_ = rng.random()
+    if r_ < 0.5:
+        times = sorted(set(rng.randrange(0, 8) for _ in range(rng.randint(0, 3))))
+    elif r_ < 0.65:
+        times = [rng.randrange(0, 8)] * 2
+    else:   # any list of times: unsorted, with repeats, of any length
+        times = [rng.randrange(0, 7) for _ in range(rng.randint(1, 4))]
     wf, prod, team, wp = project.workflow, project.product, project.organization.team_list[0], project.organization.workplace_list[0]
     calls = [
         ("extractT", 0, wf.extract_none_task_list, ix.t_ix, "tState"), ("extractT", 1, wf.extract_ready_task_list, ix.t_ix, "tState"),
